@@ -73,6 +73,8 @@ use std::{
 use std::time::Instant;
 
 use deadpool_runtime::Runtime;
+#[cfg(deadpool_verif)]
+use deadpool_runtime::verif;
 use tokio::sync::{Semaphore, TryAcquireError};
 
 pub use crate::Status;
@@ -163,7 +165,15 @@ impl<M: Manager> UnreadyObject<'_, M> {
 impl<M: Manager> Drop for UnreadyObject<'_, M> {
     fn drop(&mut self) {
         if let Some(mut inner) = self.inner.take() {
+            #[cfg(deadpool_verif)]
+            verif::point("managed.unready_drop.enter");
+            #[cfg(deadpool_verif)]
+            verif::lock_point("managed.unready_drop.lock", || {
+                verif::is_locked(&self.pool.slots)
+            });
             self.pool.slots.lock().unwrap().size -= 1;
+            #[cfg(deadpool_verif)]
+            verif::point("managed.unready_drop.pre_detach");
             self.pool.manager.detach(&mut inner.obj);
         }
     }
@@ -183,6 +193,8 @@ impl<M: Manager> Object<M> {
     /// size of the [`Pool`].
     #[must_use]
     pub fn take(mut this: Self) -> M::Type {
+        #[cfg(deadpool_verif)]
+        verif::point("managed.take.enter");
         let mut inner = this.inner.take().unwrap().obj;
         if let Some(pool) = Object::pool(&this) {
             pool.inner.detach_object(&mut inner)
@@ -210,6 +222,8 @@ impl<M: Manager> Object<M> {
 impl<M: Manager> Drop for Object<M> {
     fn drop(&mut self) {
         if let Some(inner) = self.inner.take() {
+            #[cfg(deadpool_verif)]
+            verif::point("managed.object_drop.enter");
             if let Some(pool) = self.pool.upgrade() {
                 pool.return_object(inner)
             }
@@ -323,6 +337,8 @@ impl<M: Manager, W: From<Object<M>>> Pool<M, W> {
         let users_guard = DropGuard(|| {
             let _ = self.inner.users.fetch_sub(1, Ordering::Relaxed);
         });
+        #[cfg(deadpool_verif)]
+        verif::point("managed.get.enter");
 
         let non_blocking = match timeouts.wait {
             Some(t) => t.as_nanos() == 0,
@@ -350,7 +366,16 @@ impl<M: Manager, W: From<Object<M>>> Pool<M, W> {
             .await?
         };
 
+        #[cfg(deadpool_verif)]
+        verif::point("managed.get.permit");
+
         let inner_obj = loop {
+            #[cfg(deadpool_verif)]
+            verif::point("managed.get.loop");
+            #[cfg(deadpool_verif)]
+            verif::lock_point("managed.get.pop.lock", || {
+                verif::is_locked(&self.inner.slots)
+            });
             let inner_obj = match self.inner.config.queue_mode {
                 QueueMode::Fifo => self.inner.slots.lock().unwrap().vec.pop_front(),
                 QueueMode::Lifo => self.inner.slots.lock().unwrap().vec.pop_back(),
@@ -365,8 +390,14 @@ impl<M: Manager, W: From<Object<M>>> Pool<M, W> {
             }
         };
 
+        #[cfg(deadpool_verif)]
+        verif::point("managed.get.pre_disarm");
         users_guard.disarm();
+        #[cfg(deadpool_verif)]
+        verif::point("managed.get.pre_forget");
         permit.forget();
+        #[cfg(deadpool_verif)]
+        verif::point("managed.get.post_forget");
 
         Ok(Object {
             inner: Some(inner_obj),
@@ -386,6 +417,8 @@ impl<M: Manager, W: From<Object<M>>> Pool<M, W> {
             pool: &self.inner,
         };
         let inner = unready_obj.inner();
+        #[cfg(deadpool_verif)]
+        verif::point("managed.recycle.enter");
 
         // Apply pre_recycle hooks
         if let Err(_e) = self.inner.hooks.pre_recycle.apply(inner).await {
@@ -405,12 +438,16 @@ impl<M: Manager, W: From<Object<M>>> Pool<M, W> {
             return Ok(None);
         }
 
+        #[cfg(deadpool_verif)]
+        verif::point("managed.recycle.pre_post_hooks");
         // Apply post_recycle hooks
         if let Err(_e) = self.inner.hooks.post_recycle.apply(inner).await {
             // TODO log post_recycle error
             return Ok(None);
         }
 
+        #[cfg(deadpool_verif)]
+        verif::point("managed.recycle.pre_metrics");
         inner.metrics.recycle_count += 1;
         #[cfg(not(target_arch = "wasm32"))]
         {
@@ -439,7 +476,15 @@ impl<M: Manager, W: From<Object<M>>> Pool<M, W> {
             pool: &self.inner,
         };
 
+        #[cfg(deadpool_verif)]
+        verif::point("managed.create.pre_size");
+        #[cfg(deadpool_verif)]
+        verif::lock_point("managed.create.size.lock", || {
+            verif::is_locked(&self.inner.slots)
+        });
         self.inner.slots.lock().unwrap().size += 1;
+        #[cfg(deadpool_verif)]
+        verif::point("managed.create.post_size");
 
         // Apply post_create hooks
         if let Err(e) = self
@@ -463,15 +508,25 @@ impl<M: Manager, W: From<Object<M>>> Pool<M, W> {
      * always reports a `max_size` of 0 for closed pools.
      */
     pub fn resize(&self, max_size: usize) {
+        #[cfg(deadpool_verif)]
+        verif::point("managed.resize.enter");
         if self.inner.semaphore.is_closed() {
             return;
         }
+        #[cfg(deadpool_verif)]
+        verif::point("managed.resize.post_closed_check");
+        #[cfg(deadpool_verif)]
+        verif::lock_point("managed.resize.lock", || {
+            verif::is_locked(&self.inner.slots)
+        });
         let mut slots = self.inner.slots.lock().unwrap();
         let old_max_size = slots.max_size;
         slots.max_size = max_size;
         // shrink pool
         if max_size < old_max_size {
             while slots.size > slots.max_size {
+                #[cfg(deadpool_verif)]
+                verif::point("managed.resize.shrink_loop");
                 if let Ok(permit) = self.inner.semaphore.try_acquire() {
                     permit.forget();
                     if slots.vec.pop_front().is_some() {
@@ -523,7 +578,15 @@ impl<M: Manager, W: From<Object<M>>> Pool<M, W> {
         &self,
         mut predicate: impl FnMut(&M::Type, Metrics) -> bool,
     ) -> RetainResult<M::Type> {
+        #[cfg(deadpool_verif)]
+        verif::point("managed.retain.enter");
         let mut removed = Vec::with_capacity(self.status().size);
+        #[cfg(deadpool_verif)]
+        verif::point("managed.retain.post_status");
+        #[cfg(deadpool_verif)]
+        verif::lock_point("managed.retain.lock", || {
+            verif::is_locked(&self.inner.slots)
+        });
         let mut guard = self.inner.slots.lock().unwrap();
         let mut i = 0;
         // This code can be simplified once `Vec::extract_if` lands in stable Rust.
@@ -558,6 +621,8 @@ impl<M: Manager, W: From<Object<M>>> Pool<M, W> {
     /// This operation resizes the pool to 0.
     pub fn close(&self) {
         self.resize(0);
+        #[cfg(deadpool_verif)]
+        verif::point("managed.close.pre_sem_close");
         self.inner.semaphore.close();
     }
 
@@ -569,6 +634,10 @@ impl<M: Manager, W: From<Object<M>>> Pool<M, W> {
     /// Retrieves [`Status`] of this [`Pool`].
     #[must_use]
     pub fn status(&self) -> Status {
+        #[cfg(deadpool_verif)]
+        verif::lock_point("managed.status.lock", || {
+            verif::is_locked(&self.inner.slots)
+        });
         let slots = self.inner.slots.lock().unwrap();
         let users = self.inner.users.load(Ordering::Relaxed);
         let (available, waiting) = if users < slots.size {
@@ -589,6 +658,47 @@ impl<M: Manager, W: From<Object<M>>> Pool<M, W> {
     pub fn manager(&self) -> &M {
         &self.inner.manager
     }
+
+    /// Read-only view of the internal bookkeeping for the simulator.
+    ///
+    /// Returns `None` while the slots are locked. The `visit` function
+    /// is called for every idle object in queue order (front to back).
+    #[cfg(deadpool_verif)]
+    pub fn verif_snapshot(
+        &self,
+        visit: &mut dyn FnMut(&M::Type, &Metrics),
+    ) -> Option<VerifSnapshot> {
+        let slots = self.inner.slots.try_lock().ok()?;
+        for obj in slots.vec.iter() {
+            visit(&obj.obj, &obj.metrics);
+        }
+        Some(VerifSnapshot {
+            permits: self.inner.semaphore.available_permits(),
+            closed: self.inner.semaphore.is_closed(),
+            size: slots.size,
+            max_size: slots.max_size,
+            idle: slots.vec.len(),
+            users: self.inner.users.load(Ordering::Relaxed),
+        })
+    }
+}
+
+/// Internal bookkeeping as reported by `Pool::verif_snapshot`.
+#[cfg(deadpool_verif)]
+#[derive(Clone, Copy, Debug, Eq, PartialEq)]
+pub struct VerifSnapshot {
+    /// Permits currently available in the semaphore.
+    pub permits: usize,
+    /// Whether the semaphore has been closed.
+    pub closed: bool,
+    /// `Slots::size`
+    pub size: usize,
+    /// `Slots::max_size`
+    pub max_size: usize,
+    /// Length of the idle queue.
+    pub idle: usize,
+    /// The `users` counter.
+    pub users: usize,
 }
 
 struct PoolInner<M: Manager> {
@@ -633,26 +743,42 @@ where
 impl<M: Manager> PoolInner<M> {
     fn return_object(&self, mut inner: ObjectInner<M>) {
         let _ = self.users.fetch_sub(1, Ordering::Relaxed);
+        #[cfg(deadpool_verif)]
+        verif::point("managed.return.post_users");
+        #[cfg(deadpool_verif)]
+        verif::lock_point("managed.return.lock", || verif::is_locked(&self.slots));
         let mut slots = self.slots.lock().unwrap();
         if slots.size <= slots.max_size {
             slots.vec.push_back(inner);
             drop(slots);
+            #[cfg(deadpool_verif)]
+            verif::point("managed.return.pre_add_permits");
             self.semaphore.add_permits(1);
         } else {
             slots.size -= 1;
             drop(slots);
+            #[cfg(deadpool_verif)]
+            verif::point("managed.return.pre_detach");
             self.manager.detach(&mut inner.obj);
         }
     }
     fn detach_object(&self, obj: &mut M::Type) {
         let _ = self.users.fetch_sub(1, Ordering::Relaxed);
+        #[cfg(deadpool_verif)]
+        verif::point("managed.detach.post_users");
+        #[cfg(deadpool_verif)]
+        verif::lock_point("managed.detach.lock", || verif::is_locked(&self.slots));
         let mut slots = self.slots.lock().unwrap();
         let add_permits = slots.size <= slots.max_size;
         slots.size -= 1;
         drop(slots);
+        #[cfg(deadpool_verif)]
+        verif::point("managed.detach.pre_add_permits");
         if add_permits {
             self.semaphore.add_permits(1);
         }
+        #[cfg(deadpool_verif)]
+        verif::point("managed.detach.pre_detach");
         self.manager.detach(obj);
     }
 }
